@@ -50,6 +50,8 @@ func (e *Engine) callValue(caller *frame, fv Value, args []Value) Value {
 		return e.callFunction(caller, f.Fn, args, f.Env)
 	case *ssa.Builtin:
 		return e.callBuiltin(caller, f, args, nil)
+	case *NativeFn:
+		return f.F(e, args)
 	case FuncNil, nil:
 		panic(&goPanic{runtime: "invalid memory address or nil pointer dereference (nil func call)"})
 	}
